@@ -2504,4 +2504,24 @@ pub mod verif_hooks_package {
 		hashes.sort();
 		hashes
 	}
+
+	/// A one-line summary of a [`MonitorEvent`]: for HTLC events the payment hash, whether a preimage
+	/// is attached and the HTLC value; the variant name otherwise.
+	///
+	/// [`MonitorEvent`]: crate::chain::channelmonitor::MonitorEvent
+	pub fn monitor_event_summary(event: &crate::chain::channelmonitor::MonitorEvent) -> String {
+		use crate::chain::channelmonitor::MonitorEvent;
+		match event {
+			MonitorEvent::HTLCEvent(upd) => format!(
+				"htlc:{}:{}:{}",
+				upd.payment_hash,
+				upd.payment_preimage.is_some() as u8,
+				upd.htlc_value_satoshis
+			),
+			MonitorEvent::HolderForceClosedWithInfo { .. } => "holder_force_closed_with_info".to_string(),
+			MonitorEvent::HolderForceClosed(_) => "holder_force_closed".to_string(),
+			MonitorEvent::CommitmentTxConfirmed(()) => "commitment_tx_confirmed".to_string(),
+			MonitorEvent::Completed { .. } => "completed".to_string(),
+		}
+	}
 }
